@@ -21,7 +21,7 @@ FUNCTIONS = [('hio.core.http.serving', 'Server.serviceConnects'), ('hio.core.htt
              ('hio.core.tcp.serving', 'Server.serviceAxes'), ('hio.core.tcp.serving', 'ServerTls.serviceAxes'), ('hio.core.tcp.serving', 'Remoter.__init__'),
              ('hio.core.tcp.serving', 'Remoter.refresh'), ('hio.core.tcp.serving', 'Remoter.receive'), ('hio.core.tcp.serving', 'RemoterTls.receive'),
              ('hio.core.tcp.serving', 'RemoterTls.send'), ('hio.base.tyming', 'Tymer.expired'), ('hio.core.http.serving', 'Requestant.checkPersisted')]
-BOUNDS = {'quick': dict(instants=3, budget_s=120, audit_max=8), 'thorough': dict(instants=4, budget_s=900, audit_max=20)}
+BOUNDS = {'quick': dict(instants=3, budget_s=120, audit_max=8), 'thorough': dict(instants=5, budget_s=900, audit_max=20)}
 OUTSIDE = ['IEEE-754 rounding', 'persistent connections (exempt by the statement)', 'BareServer', 'more than `instants` service instants', 'real sockets']
 STUBS = ['FakeNet sockets / FakeCtx; hio.core.http.serving.sys.stderr and loggers silenced']
 ASSUMPTIONS = ['reals for floats; T in [1/4, 4], gaps in [1/64, 8]', 'traffic = bytes the server reads from the client in a service() call']
